@@ -126,6 +126,20 @@ instance (n : Node) (i : Nat) : Decidable (Stamped n i) := by unfold Stamped; in
 def Pushed (n : Node) (i : Nat) : Prop := (prog Cfg.code).idxOf .push + 1 ≤ (n.th i).pc
 instance (n : Node) (i : Nat) : Decidable (Pushed n i) := by unfold Pushed; infer_instance
 
+/-- Thread `i` is inside the critical section of `update` (between `lock` and `unlock`). -/
+def InUpdate (n : Node) (i : Nat) : Prop :=
+  (prog Cfg.code).idxOf .lock + 1 ≤ (n.th i).pc ∧ (n.th i).pc ≤ (prog Cfg.code).idxOf .unlock
+instance (n : Node) (i : Nat) : Decidable (InUpdate n i) := by unfold InUpdate; infer_instance
+
+/-- **`update` is atomic**: under every schedule, whatever the clock readings, at most one
+submission is between `lock` and `unlock`, i.e. the read-modify-write of the counter and the write
+into the bundle are never interleaved with another submission's. -/
+theorem update_mutually_exclusive (subs : Nat → Sub) (k0 : Keeper) (σ : List Act) (i j : Nat)
+    (hi : InUpdate (run Cfg.code subs (Node.init subs k0) σ) i)
+    (hj : InUpdate (run Cfg.code subs (Node.init subs k0) σ) j) : i = j :=
+  Lemmas.exclusive_of_inv _
+    (Lemmas.invL_run subs σ _ ⟨by simp [Node.init], by simp [Node.init]⟩) i j hi hj
+
 /-- **Distinct ids for every schedule.** `A` marks the submissions that take part. If no `clean` of
 a participating submission drops the tuple of a participating submission, then under EVERY schedule
 any two submissions that have their number carry different ids. (`update` holds the mutex:
@@ -261,5 +275,10 @@ example : seqsOf 86400000 true ⟨"n", 800000000005⟩ Keeper.empty
   decide +kernel
 
 example : stampedPc Cfg.code = 4 ∧ (prog Cfg.code).idxOf .push + 1 = 7 := by decide
+
+/-- After `[step 0, step 1, step 0]` thread 0 is inside `update` and thread 1 is still waiting. -/
+example :
+    let n := run Cfg.code demoSubs (Node.init demoSubs Keeper.empty) [.step 0, .step 1, .step 0]
+    InUpdate n 0 ∧ ¬ InUpdate n 1 := by decide +kernel
 
 end Dtn7.Props.C14
